@@ -1,7 +1,7 @@
 (* TransposeAddForestSound (C02): soundness of the model of remove_redundant_transpose_add_forests_ir
    (TransposeAddForestPass.v) — an instance of the region theorem of TransposeRegion.v. *)
 From Coq Require Import ZArith String List Bool Arith Lia.
-From J2O Require Import PyLib Tensor Graph Redirect Preserve Reshape ElemCommute ChainSim ReshapePairPass ChainFacts C02Opt ElemSem
+From J2O Require Import PyLib Tensor Graph Redirect Preserve Reshape ElemCommute ChainSim ReshapePairPass ChainFacts C02Opt ElemSem ElemBroadcast
   TransposePairPass TransposeRegion TransposeAddForestPass.
 From J2OGen Require Import GenCast GenOpt.
 Import ListNotations.
@@ -232,11 +232,11 @@ Section AddForestSound.
     exists o', sem op ats vs' = Some o' /\ Forall2 teq o o'.
   Hypothesis Htr : sem_transpose_spec A sem op_type.
   Variable F : string -> list nat -> list A -> A.
-  Hypothesis Hpw : sem_pointwise_spec_a A sem op_type F.
+  Hypothesis Hpw : sem_pointwise_spec_g A sem op_type F.
   Variable Fcl : list nat -> V -> A -> A.
   Hypothesis Hcl : sem_castlike_spec_n A sem op_type Fcl.
   Hypothesis Hcl_type : castlike_type_only A Fcl.
-  Hypothesis Hacc : sem_accepts_spec_a A sem op_type.
+  Hypothesis Hacc : sem_accepts_spec_g A sem op_type.
   Notation evalg := (eval V sem).
   Notation stepg := (step V sem).
   Notation refinesg := (refines V teq sem).
@@ -245,7 +245,6 @@ Section AddForestSound.
   Variables (g : tgraph) (f : forest) (p q : list nat) (e ef : env V).
   Hypothesis Hfa : addforest_facts g f p q.
   Hypothesis Hadm : tadmissible g e.
-  Hypothesis Huni : uniform_operands A sem g e.
   Hypothesis Hev : evalg (tg_nodes g) e = Some ef.
   Let Hssa := tadm_ssa _ _ _ _ Hadm.
   Let Hnd : NoDup (defs (tg_nodes g)) := proj1 Hssa.
@@ -260,7 +259,7 @@ Section AddForestSound.
     exists vs yv, n_outs c = [out_of c] /\ lookups V ef (n_ins c) = Some vs /\ ef (out_of c) = Some yv.
   Proof.
     intro Hc. destruct (fa_es_in c Hc) as (H1 & H2 & H3 & H4).
-    destruct (elem_val A sem F Hpw Fcl Hcl g e ef c Hadm Huni Hev H1 H2 H3) as (vs & yv & Ho & Hl & Ey & _). eauto.
+    destruct (elem_val A sem F Hpw Fcl Hcl g e ef c Hadm Hev H1 H2 H3) as (vs & yv & Ho & Hl & Ey & _). eauto.
   Qed.
   Lemma fa_T_val t pt : In t (tg_nodes g) -> is_T t = true -> perm_of t = Some pt -> n_caps t = [] ->
     n_outs t = [out_of t] /\ exists x vx vy, n_ins t = [x] /\ ef x = Some vx /\ ef (out_of t) = Some vy /\
@@ -379,10 +378,9 @@ Section AddForestSound.
     rewrite <- app_assoc in Hsplit. simpl in Hsplit. apply in_app_or in Hcp as [Hcp|[<-|[]]]; [exact (IH _ Hsplit c yv Hc Hcp Ey)|].
     destruct (fa_es_in n Hc) as (Hnin & Hel & Hcaps & Hadd).
     destruct (eval_consistent V sem _ _ _ n Hssa Hev Hnin) as (vs & o & Hl & Hs & Hlo).
-    pose proof (Huni ef n vs Hev Hnin Hel (add_is_pw n Hadd) Hl) as Hok.
-    destruct (Hpw _ _ _ _ (add_is_pw n Hadd) Hs Hok) as (y & -> & Hy).
+    destruct (Hpw _ _ _ _ (add_is_pw n Hadd) Hs) as (_ & y & -> & Hy).
     destruct (fa_es_val n Hc) as (_ & _ & Hno & _). rewrite Hno in Hlo. simpl in Hlo. rewrite Ey in Hlo. injection Hlo as ->.
-    rewrite (proj1 Hy). apply pwn_rank_le.
+    rewrite (proj1 Hy), pwg_rank. apply prank_le.
     unfold n_uses in Hl. rewrite Hcaps, app_nil_r in Hl.
     apply (lookups_Forall V _ ef (n_ins n) vs Hl). intros u w Hu Ew.
     apply (fa_operand_rank (fun pr => In pr l) n u w Hc Hu Ew).
@@ -401,18 +399,13 @@ Section AddForestSound.
   Lemma addforest_run : refinesg (tg_graph g) (tg_graph (apply_forest g f)) e.
   Proof.
     apply (region_run A sem sem_proper Htr F Hpw Fcl Hcl Hcl_type Hacc g r p q e ef Hadm addforest_region_facts Hev).
-    - intros n u v Hn _. cbn [r forest_region r_es] in Hn. now apply fa_rank.
-    - intros n vs Hn Hop Hl. cbn [r forest_region r_es] in Hn. destruct (fa_es_in n Hn) as (H1 & H2 & H3 & _).
-      apply (Huni ef n vs Hev H1 H2 Hop). unfold n_uses. now rewrite H3, app_nil_r.
+    intros n u v Hn _. cbn [r forest_region r_es] in Hn. now apply fa_rank.
   Qed.
 
-  Lemma addforest_admissible : tadmissible (apply_forest g f) e /\ uniform_operands A sem (apply_forest g f) e.
+  Lemma addforest_admissible : tadmissible (apply_forest g f) e.
   Proof.
     apply (region_admissible A sem sem_proper Htr F Hpw Fcl Hcl Hcl_type Hacc g r p q e ef Hadm addforest_region_facts Hev).
-    - intros n u v Hn _. cbn [r forest_region r_es] in Hn. now apply fa_rank.
-    - intros n vs Hn Hop Hl. cbn [r forest_region r_es] in Hn. destruct (fa_es_in n Hn) as (H1 & H2 & H3 & _).
-      apply (Huni ef n vs Hev H1 H2 Hop). unfold n_uses. now rewrite H3, app_nil_r.
-    - intros n vs Hn Hel Hop Hl. exact (Huni ef n vs Hev Hn Hel Hop Hl).
+    intros n u v Hn _. cbn [r forest_region r_es] in Hn. now apply fa_rank.
   Qed.
 End AddForestSound.
 
@@ -425,36 +418,36 @@ Section AddForestPass.
     exists o', sem op ats vs' = Some o' /\ Forall2 teq o o'.
   Hypothesis Htr : sem_transpose_spec A sem op_type.
   Variable F : string -> list nat -> list A -> A.
-  Hypothesis Hpw : sem_pointwise_spec_a A sem op_type F.
+  Hypothesis Hpw : sem_pointwise_spec_g A sem op_type F.
   Variable Fcl : list nat -> V -> A -> A.
   Hypothesis Hcl : sem_castlike_spec_n A sem op_type Fcl.
   Hypothesis Hcl_type : castlike_type_only A Fcl.
-  Hypothesis Hacc : sem_accepts_spec_a A sem op_type.
+  Hypothesis Hacc : sem_accepts_spec_g A sem op_type.
   Notation evalg := (eval V sem).
   Notation refinesg := (refines V teq sem).
 
-  Theorem addforest_step_sound g g' e : tadmissible_u A sem g e -> addforest_step g = Some g' ->
+  Theorem addforest_step_sound g g' e : tadmissible A sem g e -> addforest_step g = Some g' ->
     refinesg (tg_graph g) (tg_graph g') e.
   Proof.
-    intros [Hadm Huni] Hstep. unfold addforest_step in Hstep.
+    intros Hadm Hstep. unfold addforest_step in Hstep.
     destruct (first_some (decide_addforest g) (tg_nodes g)) as [f|] eqn:Efs; [|discriminate]. injection Hstep as <-.
     apply first_some_spec in Efs as (start & Hstart & Hd). destruct (decide_addforest_facts g start f Hstart Hd) as (p & q & Hfa).
     intros o Hrun. assert (Hev : exists ef, evalg (tg_nodes g) e = Some ef).
     { unfold run in Hrun. simpl in Hrun. destruct (evalg (tg_nodes g) e); [eauto|discriminate]. }
     destruct Hev as [ef Hev].
-    exact (addforest_run A sem sem_proper Htr F Hpw Fcl Hcl Hcl_type Hacc g f p q e ef Hfa Hadm Huni Hev o Hrun).
+    exact (addforest_run A sem sem_proper Htr F Hpw Fcl Hcl Hcl_type Hacc g f p q e ef Hfa Hadm Hev o Hrun).
   Qed.
 
-  Theorem addforest_step_admissible g g' e ef : tadmissible_u A sem g e -> evalg (tg_nodes g) e = Some ef ->
-    addforest_step g = Some g' -> tadmissible_u A sem g' e.
+  Theorem addforest_step_admissible g g' e ef : tadmissible A sem g e -> evalg (tg_nodes g) e = Some ef ->
+    addforest_step g = Some g' -> tadmissible A sem g' e.
   Proof.
-    intros [Hadm Huni] Hev Hstep. unfold addforest_step in Hstep.
+    intros Hadm Hev Hstep. unfold addforest_step in Hstep.
     destruct (first_some (decide_addforest g) (tg_nodes g)) as [f|] eqn:Efs; [|discriminate]. injection Hstep as <-.
     apply first_some_spec in Efs as (start & Hstart & Hd). destruct (decide_addforest_facts g start f Hstart Hd) as (p & q & Hfa).
-    exact (addforest_admissible A sem sem_proper Htr F Hpw Fcl Hcl Hcl_type Hacc g f p q e ef Hfa Hadm Huni Hev).
+    exact (addforest_admissible A sem sem_proper Htr F Hpw Fcl Hcl Hcl_type Hacc g f p q e ef Hfa Hadm Hev).
   Qed.
 
-  Theorem addforest_pass_sound : forall fuel g e, tadmissible_u A sem g e ->
+  Theorem addforest_pass_sound : forall fuel g e, tadmissible A sem g e ->
     refinesg (tg_graph g) (tg_graph (addforest_pass fuel g)) e.
   Proof.
     induction fuel as [|k IH]; simpl; intros g e Hadm.
